@@ -27,7 +27,8 @@ Markers == [p \in 1..5 |-> RuleT(100 * p, p, << >>)]
 KindActs(k) ==
   CASE k = "deny"     -> <<A("deny")>>
     [] k = "drop"     -> <<A("drop")>>
-    [] k = "redirect" -> <<ARedirect(<<Lit(<<47, 114>>)>>)>>
+    [] k \in {"redirect", "redirect301", "redirect301late"} -> <<ARedirect(<<Lit(<<47, 114>>)>>)>>
+    [] k = "deny401late" -> <<A("deny")>>
     [] k = "ctlDet"   -> <<ACtlEngine("DetectionOnly")>>
     [] k = "ctlOn"    -> <<ACtlEngine("On")>>
     [] k = "ctlOff"   -> <<ACtlEngine("Off")>>
@@ -36,10 +37,15 @@ KindActs(k) ==
     [] k = "ctlRespOn"  -> <<ACtlRespAccess("On")>>
     [] k = "ctlRespOff" -> <<ACtlRespAccess("Off")>>
     [] OTHER          -> << >>
+\* the status action of a special rule, and whether it is written after the disruptive action (the order of the
+\* actions in the text must not matter: the interruption carries the rule's status)
+KindStatus(k) == CASE k \in {"redirect301", "redirect301late"} -> 301 [] k = "deny401late" -> 401 [] OTHER -> 0
+KindLate(k) == k \in {"redirect301late", "deny401late"}
+SpecialRule(id, p, k) == [RuleT(id, p, KindActs(k)) EXCEPT !.status = KindStatus(k)] @@ [statusLast |-> KindLate(k)]
 \* marker of every phase, plus (optionally) one special rule right after the marker of phase d.p,
 \* plus (optionally) a second deny in phase d.q, plus a closing plain rule in those phases
 RulesOf(d) ==
-  LET extra(p) == (IF d.k # "none" /\ d.p = p THEN <<RuleT(100 * p + 1, p, KindActs(d.k))>> ELSE << >>)
+  LET extra(p) == (IF d.k # "none" /\ d.p = p THEN <<SpecialRule(100 * p + 1, p, d.k)>> ELSE << >>)
                   \o (IF d.q = p THEN <<RuleT(100 * p + 2, p, <<A("deny")>>)>> ELSE << >>)
       \* a plain rule closing every phase that holds a special rule: it shows whether the rule loop went on
       tail(p)  == IF extra(p) # << >> THEN <<RuleT(100 * p + 9, p, << >>)>> ELSE << >>
